@@ -82,8 +82,13 @@ def syntax_only(directory: str, source: str, flavor: str = 'plain',
 def run_script(directory: str, exe: str, script: str, flavor: str = 'plain', tag: str = 'run',
                timeout: int = 60, env_extra: Optional[Dict[str, str]] = None):
     """-> {'rc', 'log': [records], 'stderr', 'timeout': bool}"""
-    spath = os.path.join(directory, f'{tag}.script')
-    lpath = os.path.join(directory, f'{tag}.log')
+    # the tag may hold anything (client identifiers, event names): make a file name of it
+    safe = re.sub(r'[^A-Za-z0-9_.-]', '_', tag)
+    if len(safe) > 80 or safe != tag:
+        import zlib  # pylint: disable=import-outside-toplevel
+        safe = f'{safe[:80]}_{zlib.crc32(tag.encode("utf-8")):08x}'
+    spath = os.path.join(directory, f'{safe}.script')
+    lpath = os.path.join(directory, f'{safe}.log')
     with open(spath, 'w', encoding='utf-8') as fh:
         fh.write(script)
     if os.path.exists(lpath):
